@@ -99,8 +99,20 @@ def canon(fi, e, inline=True):
 _sig_cache = {}
 
 
+# positional parameter names of the numpy / math functions the package calls with keywords somewhere (canonical short names)
+NUMPY_SIGNATURES = {
+    'zeros': ['shape', 'dtype', 'order'], 'ones': ['shape', 'dtype', 'order'], 'empty': ['shape', 'dtype', 'order'],
+    'eye': ['N', 'M', 'k', 'dtype'], 'identity': ['n', 'dtype'], 'array': ['object', 'dtype'], 'asarray': ['a', 'dtype'],
+    'stack': ['arrays', 'axis'], 'concatenate': ['arrays', 'axis'], 'cross': ['a', 'b'], 'dot': ['a', 'b'], 'norm': ['x', 'ord', 'axis'],
+    'isclose': ['a', 'b', 'rtol', 'atol'], 'allclose': ['a', 'b', 'rtol', 'atol'], 'linspace': ['start', 'stop', 'num'],
+    'arctan2': ['x1', 'x2'], 'atan2': ['y', 'x'], 'reshape': ['a', 'newshape'], 'tile': ['A', 'reps'], 'sum': ['a', 'axis'],
+    'trace': ['a'], 'det': ['a'], 'inv': ['a'], 'expm': ['A'], 'logm': ['A'],
+}
+
+
 def _plain_signature(name):
-    """positional parameter names of the package's plain (module-level) function `name` if that name is unique, else None"""
+    """positional parameter names of the package's plain (module-level) function `name` if that name is unique, else those of the
+    numpy function of that (canonical) name, else None"""
     from .model import program
     prog = program()
     k = (id(prog), name)
@@ -108,6 +120,8 @@ def _plain_signature(name):
         fs = [f for f in prog.functions.values() if f.cls is None and f.parent is None and f.name == name and f.module.short != 'stdlib/collections']
         sigs = {tuple(f.params) for f in fs}
         _sig_cache[k] = list(sigs.pop()) if len(sigs) == 1 and fs and fs[0].node.args.vararg is None else None
+        if not fs and name in NUMPY_SIGNATURES:
+            _sig_cache[k] = list(NUMPY_SIGNATURES[name])
     return _sig_cache[k]
 
 
